@@ -721,8 +721,11 @@ func init() {
 			return ex.deepEqual(args[1], args[2])
 		},
 		"(k8s.io/apimachinery/third_party/forked/golang/reflect.Equalities).DeepDerivative": func(ex *Exec, fr *frame, fn *ssa.Function, args []Value, pos tokenPos) Value {
-			ex.unsupported("DeepDerivative")
-			return nil
+			a, ok := args[1].(IfaceV)
+			if ok && a.t == nil {
+				return tTrue
+			}
+			return ex.deepDerive(args[1], args[2], 0)
 		},
 
 		"reflect.TypeOf": func(ex *Exec, fr *frame, fn *ssa.Function, args []Value, pos tokenPos) Value {
@@ -1379,6 +1382,150 @@ func (ex *Exec) deepEq(a, b Value, depth int) *Term {
 		return mkBool(b == nil)
 	}
 	ex.unsupported(fmt.Sprintf("DeepEqual of %T", a))
+	return nil
+}
+
+// deepDerive mirrors Equalities.deepValueDerive (apimachinery, third_party/forked/golang/reflect): like DeepEqual, but
+// unset parts of the first argument (nil pointer / interface, empty string, nil or empty slice and map) are ignored,
+// and a slice only has to be a prefix of the other.  Custom equality funcs of the Semantic table (Quantity, Time,
+// selectors) are not distinguished: their values are compared structurally.
+func (ex *Exec) deepDerive(a, b Value, depth int) *Term {
+	if depth > 60 {
+		ex.unsupported("DeepDerivative depth")
+	}
+	switch x := a.(type) {
+	case *Term:
+		y, ok := b.(*Term)
+		if !ok || x.sort != y.sort {
+			return tFalse
+		}
+		if x.sort == SStr {
+			return mkOr(mkEq(x, mkStr("")), mkEq(x, y))
+		}
+		return mkEq(x, y)
+	case FloatV:
+		y, ok := b.(FloatV)
+		if !ok {
+			return tFalse
+		}
+		return floatEq(x, y)
+	case IfaceV:
+		y, ok := b.(IfaceV)
+		if !ok {
+			return tFalse
+		}
+		if x.t == nil {
+			return tTrue
+		}
+		if y.t == nil || !types.Identical(x.t, y.t) {
+			return tFalse
+		}
+		return ex.deepDerive(x.v, y.v, depth+1)
+	case PtrV:
+		y, ok := b.(PtrV)
+		if !ok {
+			return tFalse
+		}
+		if x.c == nil {
+			return tTrue
+		}
+		if y.c == nil {
+			return tFalse
+		}
+		if x.c == y.c {
+			return tTrue
+		}
+		return ex.deepDerive(ex.load(x.c), ex.load(y.c), depth+1)
+	case StructV:
+		y, ok := b.(StructV)
+		if !ok || len(x.fields) != len(y.fields) {
+			return tFalse
+		}
+		r := tTrue
+		for i := range x.fields {
+			r = mkAnd(r, ex.deepDerive(x.fields[i], y.fields[i], depth+1))
+			if r == tFalse {
+				return r
+			}
+		}
+		return r
+	case ArrayV:
+		y, ok := b.(ArrayV)
+		if !ok || len(x.elems) != len(y.elems) {
+			return tFalse
+		}
+		r := tTrue
+		for i := range x.elems {
+			r = mkAnd(r, ex.deepDerive(x.elems[i], y.elems[i], depth+1))
+		}
+		return r
+	case SliceV:
+		y, ok := b.(SliceV)
+		if !ok {
+			return tFalse
+		}
+		if x.str != nil || y.str != nil {
+			if x.str != nil && y.str != nil {
+				return mkOr(mkEq(x.str, mkStr("")), mkEq(x.str, y.str))
+			}
+			ex.unsupported("DeepDerivative string-backed vs concrete bytes")
+		}
+		if xn, _ := isNilValue(x); xn || x.len == 0 {
+			return tTrue
+		}
+		if x.len > y.len {
+			return tFalse
+		}
+		r := tTrue
+		for i := 0; i < x.len; i++ {
+			r = mkAnd(r, ex.deepDerive(ex.load(x.arr.subs[x.off+i]), ex.load(y.arr.subs[y.off+i]), depth+1))
+			if r == tFalse {
+				return r
+			}
+		}
+		return r
+	case MapV:
+		y, ok := b.(MapV)
+		if !ok {
+			return tFalse
+		}
+		if x.m == nil || len(x.m.keys) == 0 {
+			return tTrue
+		}
+		if y.m == nil || len(x.m.keys) > len(y.m.keys) {
+			return tFalse
+		}
+		if x.m == y.m {
+			return tTrue
+		}
+		r := tTrue
+		for i, k := range x.m.keys {
+			var any *Term = tFalse
+			for j, k2 := range y.m.keys {
+				ke := ex.keyEq(k, k2)
+				if ke == tFalse {
+					continue
+				}
+				any = mkOr(any, mkAnd(ke, ex.deepDerive(x.m.vals[i], y.m.vals[j], depth+1)))
+			}
+			r = mkAnd(r, any)
+			if r == tFalse {
+				return r
+			}
+		}
+		return r
+	case FuncV:
+		y, ok := b.(FuncV)
+		xn, _ := isNilValue(x)
+		if ok {
+			yn, _ := isNilValue(y)
+			return mkBool(xn && yn)
+		}
+		return tFalse
+	case nil:
+		return tTrue
+	}
+	ex.unsupported(fmt.Sprintf("DeepDerivative of %T", a))
 	return nil
 }
 
